@@ -33,6 +33,16 @@ Kernels (DESIGN.md section 4, C08):
       instruction) - never INTERNAL_ERROR / an exception.                                        [selector]
 
       K4:act-option: the same with `--act FILE` (before-assert and assert are not executed) and no failure.
+  K5  a symbol is visible to EVERY STEP of every later instruction (definitions that DO run): the validation steps of
+      an instruction run before the main step of the definition it refers to, yet must find the symbol.
+        K5:steps   REAL `def` of every value type (a constant; optionally a second one built from it) in symbolic
+                   phases, using stubs in every phase / position after it and a using stub action to check, through
+                   the REAL executor: every step that is given an environment (validate-pre-sds, validate-post-setup,
+                   main; act: prepare, execute) finds the symbol in `environment.symbols`, of the defined type, and
+                   resolves it (transitively) against that table to the defined value.            [selector]
+        K5:cli     REAL instructions that resolve their references in validate-post-setup (`exists`, reaching 12
+                   value types), validate-pre-sds and main, after a `def` in setup / before-assert / assert, through
+                   the REAL MainProgram.execute: PASS / FAIL according to the DEFINED value.        [selector]
 
 Regions (known findings; switched on by known_findings.json):
   C08-cleanup-references-skipped-definition   the definition passed validation but never ran, and a [cleanup]
@@ -1065,6 +1075,153 @@ def k4_act_option(dp: int, rf: int) -> bool:
     return ob.post(r['rc'] == want and 'Traceback' not in r['stderr'])
 
 
+# ============================================================================ K5
+
+REAL_K5 = (
+    'exactly_lib.execution.partial_execution.impl.executor._PartialExecutor.execute',
+    'exactly_lib.execution.partial_execution.impl.executor._PartialExecutor._setup_pre_sds_environment',
+    'exactly_lib.execution.partial_execution.impl.executor._PartialExecutor._setup_post_sds_environment',
+    'exactly_lib.execution.partial_execution.impl.executor._PartialExecutor._post_setup_validation_environments',
+    'exactly_lib.execution.partial_execution.impl.executor._PartialExecutor._post_sds_main_environments',
+    'exactly_lib.execution.partial_execution.impl.executor._PartialExecutor._post_sds_environment',
+    'exactly_lib.execution.partial_execution.impl.executor._PartialExecutor._construct_act_phase_executor',
+    'exactly_lib.execution.partial_execution.impl.executor.parse_atc_and_validate_symbols',
+    'exactly_lib.execution.partial_execution.impl.symbol_validation.SymbolsValidator',
+    'exactly_lib.execution.impl.symbol_validation.validate_symbol_usages',
+    'exactly_lib.execution.impl.phase_step_executors.SetupValidatePostSetupExecutor',
+    'exactly_lib.execution.impl.phase_step_executors.BeforeAssertValidatePostSetupExecutor',
+    'exactly_lib.execution.impl.phase_step_executors.AssertValidatePostSetupExecutor',
+    'exactly_lib.execution.impl.phase_step_executors.AssertValidatePreSdsExecutor',
+    'exactly_lib.execution.impl.phase_step_executors.CleanupValidatePreSdsExecutor',
+    'exactly_lib.execution.partial_execution.impl.atc_execution.ActionToCheckExecutor',
+    'exactly_lib.impls.instructions.multi_phase.define_symbol.parser.TheInstructionEmbryo.main',
+    'exactly_lib.impls.instructions.multi_phase.define_symbol.parser.EmbryoParser.parse',
+    'exactly_lib.util.symbol_table.SymbolTable',
+    'exactly_lib.execution.full_execution.execution.execute',
+)
+
+K5_PHASES = ('setup', 'before-assert', 'assert', 'cleanup')
+# The steps of an instruction (of the action to check) that are given an environment, per phase: the methods of the public
+# base classes SetupPhaseInstruction, ActionToCheck, BeforeAssertPhaseInstruction, AssertPhaseInstruction and
+# CleanupPhaseInstruction (which has no validate_post_setup); in an accepted, passing test case every one of them is run.
+K5_STEPS = {'setup': ('pre', 'main', 'post'), 'act': ('pre', 'post', 'prepare', 'execute'),
+            'before-assert': ('pre', 'post', 'main'), 'assert': ('pre', 'post', 'main'), 'cleanup': ('pre', 'main')}
+
+
+def k5_program(type_row, def_phases, oracle_bug: bool = False):
+    """X0 := a constant of the type, defined in def_phases[0]; X1 := a value of the same type built from X0, defined in
+    def_phases[1] (if given; after X0).  Using instructions: in every phase one before the definitions of the phase and one
+    after them, each referring to the symbol defined last before it (none if there is no such symbol); the action to check
+    refers to the symbol defined last in [setup].
+    -> (sections, reference of the action to check, expected log): every step of every using instruction finds its symbol,
+    of the defined type, resolving to the defined value."""
+    from harness import _C08_steps as steps
+    type_, const, link, v_const, v_link = type_row
+    defs = [(def_phases[0], 'X0', 'def %s X0 = %s' % (type_, const), v_const)]
+    if len(def_phases) > 1:
+        defs.append((def_phases[1], 'X1', 'def %s X1 = %s' % (type_, link.format(x='X0')), v_link))
+    sections = {}
+    expected = {}
+    atc_uses = None
+    latest = None  # (name, value, phase of the definition)
+
+    def expect(ph, pos):
+        for step in K5_STEPS[ph]:
+            e = (type_, latest[1])
+            if oracle_bug and step == 'pre':
+                # seeded oracle error: the validation that precedes the execution is handed the builtin symbols only
+                e = steps.MISSING
+            expected[(ph, pos, step)] = e
+
+    for ph in lib.EXE_ORDER:
+        if ph == 'act':
+            if latest is not None:
+                atc_uses = (latest[0], type_)
+                expect('act', 0)
+            continue
+        sec = []
+        if latest is not None:
+            sec.append(('use', (latest[0], type_)))
+            expect(ph, len(sec))
+        here = [d for d in defs if d[0] == ph]
+        for _ph, name, line, value in here:
+            sec.append(('def', line))
+            latest = (name, value, ph)
+        if here:
+            sec.append(('use', (latest[0], type_)))
+            expect(ph, len(sec))
+        sections[ph] = sec
+    return sections, atc_uses, expected
+
+
+def _pre_k5(ty: int, p0: int, p1: int) -> bool:
+    case = ob.case()
+    if not (0 <= ty < len(case['types']) and 0 <= p0 < len(K5_PHASES)):
+        return False
+    if case['chain']:
+        return p0 <= p1 < len(K5_PHASES)
+    return p1 == 0  # unused selector
+
+
+def k5_steps(ty: int, p0: int, p1: int) -> bool:
+    """
+    pre: _pre_k5(ty, p0, p1)
+    post: _
+    """
+    from harness import _C08_steps as steps
+    case = ob.case()
+    type_row = steps.TYPES[ob.pick(case['types'], ty)]
+    def_phases = [ob.pick(K5_PHASES, p0)]
+    if case['chain']:
+        def_phases.append(ob.pick(K5_PHASES, p1))
+    sections, atc_uses, expected = k5_program(type_row, def_phases, bool(case.get('oracle_bug')))
+    log = {}
+    run = steps.run(sections, atc_uses, log)
+    if run.exception is not None or run.result is None:
+        return ob.post(False)
+    return ob.post(run.result.status.name == 'PASS' and log == expected)
+
+
+REAL_K5_CLI = REAL_K5[:-1] + (
+    'exactly_lib.cli.main_program.MainProgram.execute',
+    'exactly_lib.impls.instructions.assert_.existence_of_file._Instruction.validate_pre_sds',
+    'exactly_lib.impls.instructions.assert_.existence_of_file._Instruction.validate_post_setup',
+    'exactly_lib.impls.instructions.assert_.existence_of_file._Instruction.main',
+    'exactly_lib.impls.instructions.assert_.utils.instruction_of_matcher.Instruction',
+    'exactly_lib.util.symbol_table.SymbolTable.lookup',
+)
+
+
+def _pre_k5c(use: int, dp: int, holds: bool) -> bool:
+    from harness import _C08_steps as steps
+    case = ob.case()
+    if not (use in case['uses'] and 0 <= dp < len(steps.CLI_DEF_PHASES)):
+        return False
+    return holds or steps.CLI_USES[use][3] is not None
+
+
+def k5_cli(use: int, dp: int, holds: bool) -> bool:
+    """
+    pre: _pre_k5c(use, dp, holds)
+    post: _
+    """
+    from harness import _C08_steps as steps
+    case = ob.case()
+    use = ob.concrete_int(use, 0, len(steps.CLI_USES) - 1)
+    dp = ob.concrete_int(dp, 0, len(steps.CLI_DEF_PHASES) - 1)
+    holds = ob.concrete_bool(holds)
+    r = lib.run_cli(steps.cli_text(use, dp, holds))
+    if r['exc'] is not None:
+        return ob.post(False)
+    # the test case is accepted and executed; the assertion is judged on the DEFINED value
+    want = ('PASS', 0) if (holds or case.get('oracle_bug')) else ('FAIL', 32)
+    ok = (r['ident'], r['rc']) == want and len(r['sandboxes']) == 1
+    if ok and steps.CLI_USES[use][1] == 'list':
+        # a list in the arguments of a program: its elements, one argument each
+        ok = ['prog', 'a', 'b'] in [list(c[0])[:3] for c in r['calls'] if not isinstance(c[0], str)]
+    return ob.post(ok)
+
+
 # ============================================================================ obligations
 
 def _order_ob(name, phases, kinds, names, layouts, timeout, **extra):
@@ -1237,7 +1394,7 @@ def obligations(tier: str) -> List[Ob]:
                       timeout=(300, 600, 1800)[k - 1], real=REAL_K2,
                       stubs=('stub probe instructions / stub actor (vsym.exeharness)', 'deterministic sandbox resolver'),
                       entry='full_execution.execution.execute on real def instructions + probes',
-                      outside=('symbol tables handed to the validation steps (they see all definitions by design)',)))
+                      outside=('symbol tables handed to the validation steps (they see all definitions by design): K5',)))
     obs.append(_refute(Ob(name='K2:seeded-oracle-error', fn='k2_visibility', case=dict(k=1, drefs=False, oracle_bug=True),
                           kernel='K2', selector=True, bound='seeded: a definition is visible from the start of its phase',
                           timeout=300)))
@@ -1329,6 +1486,51 @@ def obligations(tier: str) -> List[Ob]:
     obs.append(_refute(Ob(name='K4:seeded-oracle-error', fn='k4_cleanup_reference', case=dict(failures=(5,), refs=(4,), oracle_bug=True),
                           kernel='K4', selector=True, bound='seeded: the oracle expects PASS although an assertion fails',
                           timeout=900)))
+    # ------------------------------------------------------------------ K5: every step of every later instruction
+    from harness import _C08_steps as steps
+    all_t = list(range(len(steps.TYPES)))
+    tl = {t[0]: i for i, t in enumerate(steps.TYPES)}
+    k5 = [('direct', False, all_t)]
+    if thorough:
+        k5 += [('chain:%s' % steps.TYPES[t][0], True, [t]) for t in all_t]
+    else:
+        k5 += [('chain', True, [tl[x] for x in ('string', 'list', 'path', 'file-matcher', 'program')])]
+    for label, chain, types in k5:
+        obs.append(Ob(name='K5:steps:%s' % label, fn='k5_steps', case=dict(types=tuple(types), chain=chain), kernel='K5',
+                      selector=True,
+                      bound='real `def T X0 = constant` in any of the phases %s%s, T one of %s; a using stub instruction before and '
+                            'after the definitions in every phase and a using stub action to check, each referring to the symbol '
+                            'defined last before it and evaluating the reference in EVERY step it is given an environment: %s' % (
+                                list(K5_PHASES),
+                                '; real `def T X1 = value built from X0` in the same or any later phase' if chain else '',
+                                [steps.TYPES[t][0] for t in types],
+                                '; '.join('%s: %s' % (ph, ', '.join(K5_STEPS[ph])) for ph in lib.EXE_ORDER)),
+                      timeout=900 if len(types) > 1 else 300, real=REAL_K5,
+                      stubs=('using stub instructions / stub action to check (harness/_C08_steps.py on vsym.exeharness): declare a real '
+                             'SymbolReference and call symbols.lookup(name).sdv.resolve(symbols) on the table of the environment of each step',
+                             'deterministic sandbox resolver'),
+                      entry='full_execution.execution.execute on real def instructions + using stubs',
+                      outside=('the step act/validate-exe-input (it is given no environment)',
+                               'value forms other than one constant and one built value per type')))
+    obs.append(_refute(Ob(name='K5:steps:seeded-oracle-error', fn='k5_steps',
+                          case=dict(types=(tl['string'], tl['file-matcher']), chain=False, oracle_bug=True), kernel='K5', selector=True,
+                          bound='seeded: the oracle believes that the validation steps that precede the execution are handed the '
+                                'builtin symbols only', timeout=300)))
+    all_u = list(range(len(steps.CLI_USES)))
+    for i, us in enumerate(_chunks(all_u, 6)):
+        obs.append(Ob(name='K5:cli:%d' % i, fn='k5_cli', case=dict(uses=tuple(us)), kernel='K5', selector=True,
+                      bound='[setup] %s; `def T X = V` at the end of any of the phases %s; [assert] one of the instructions %s, V being '
+                            'a value with which the assertion holds / does not hold' % (
+                                ' / '.join(steps.CLI_SETUP), list(steps.CLI_DEF_PHASES),
+                                ['%s (T = %s; X resolved in step %s)' % (steps.CLI_USES[u][5], steps.CLI_USES[u][1], steps.CLI_USES[u][6])
+                                 for u in us]),
+                      timeout=900, real=REAL_K5_CLI, stubs=_STUBS_CLI + ('the stub process named %s exits with 1' % lib.FAILING_PROGRAM,),
+                      entry='MainProgram.execute([FILE])',
+                      outside=('using instructions other than the catalogued (`exists` is the only instruction of the default set that '
+                               'resolves symbols in validate-post-setup of [before-assert] / [assert])',
+                               'files-source symbols (no instruction resolves them outside main)')))
+    obs.append(_refute(Ob(name='K5:cli:seeded-oracle-error', fn='k5_cli', case=dict(uses=(5,), oracle_bug=True), kernel='K5',
+                          selector=True, bound='seeded: the oracle expects PASS whatever the defined value', timeout=300)))
     names = [o.name for o in obs]
     assert len(names) == len(set(names)), 'duplicate obligation names'
     return obs
@@ -1362,6 +1564,19 @@ def selftest(tier: str) -> int:
                 if not (_check_validation(statements, expected) and _check_validation(render(statements), expected)):
                     raise AssertionError('C08 selftest: chain %r: model expects %r' % (render(statements), expected))
                 n += 2
+    # (c) K5: the using stubs' evaluation of a reference (`_C08_steps.look`) against the real tables: the validated table
+    # gives the defined type and value; a table lacking the symbol the value is built from / the symbol itself is noticed
+    from exactly_lib.util.symbol_table import SymbolTable
+    from harness import _C08_steps as steps
+    for type_, const, link, v_const, v_link in steps.TYPES:
+        res = lib.validate([('setup', 'def %s X0 = %s' % (type_, const)), ('assert', 'def %s X1 = %s' % (type_, link.format(x='X0')))])
+        if res[0] != 'OK':
+            raise AssertionError('C08 selftest: K5 definitions of type %s are rejected' % type_)
+        got = (steps.look(res[1], 'X0'), steps.look(res[1], 'X1'), steps.look(SymbolTable({'X1': res[1].lookup('X1')}), 'X1'),
+               steps.look(lib.parsing()['builtins'](), 'X1'))
+        if got != ((type_, v_const), (type_, v_link), (type_, 'unresolvable'), steps.MISSING):
+            raise AssertionError('C08 selftest: K5 look() for type %s: %r' % (type_, got))
+        n += 4
     return n
 
 
